@@ -3,8 +3,8 @@ import Ach.Props.AcceptedFileBatches
 # Every entry of an accepted batch respects a credits-only / debits-only service class (C03)
 
 Each `BatchXXX.Validate` walks its entries and calls `ValidTranCodeForServiceClassCode(entry)`.  For the validators whose
-translated loop has the shape `shapeOK` (17 of the 21 standard classes today: the rest declare variables or assign in the
-loop before the call and stay on the hand-written model), an accepting run called it for **every** entry and it returned
+translated loop has the shape `shapeOK` (20 of the 21 standard classes today: CTX assigns to a counter in the loop
+before the call and stays on the hand-written model), an accepting run called it for **every** entry and it returned
 nil; and that function, translated too, returns nil only if a 220 batch entry is a credit and a 225 batch entry a debit
 (by `EntryDetail.CreditOrDebit`, translated as well: the second digit of the transaction code).
 -/
@@ -89,6 +89,143 @@ theorem keeps_drop (c : Ctx) :
             exact ih rest l (fun p hp => hall p (List.mem_cons_of_mem _ hp)) h
         | _ => simp at h
 
+/-- the names a statement declares at its own level when it passes control on: nothing for the statements `keeps`
+describes, the bound names for declarations and calls that bind their result, both parts for a sequence -/
+def declares : Prog → Option (List String)
+  | .bind x _ => some [x]
+  | .bind2 x y _ => some [y, x]
+  | .sub x _ _ _ => some [x]
+  | .subOn x _ _ _ _ => some [x]
+  | .seq a b => match declares a, declares b with
+      | some da, some db => some (db ++ da)
+      | _, _ => none
+  | p => if keeps p then some [] else none
+
+theorem declares_exact : ∀ (p : Prog) (names : List String), declares p = some names → ∀ (c : Ctx) (l : Locals),
+    passing (exec p c l).2 → (exec p c l).2 = .next ∧ ∃ pre, (exec p c l).1 = pre ++ l ∧ pre.map Prod.fst = names := by
+  intro p
+  induction p with
+  | bind x e =>
+      intro names hd c l h
+      simp only [declares, Option.some.injEq] at hd
+      subst hd
+      simp only [exec] at h ⊢
+      cases hb : eval c l e <;> rw [hb] at h <;> first | (simp [passing] at h; done) | exact ⟨rfl, [(x, _)], rfl, rfl⟩
+  | bind2 x y e =>
+      intro names hd c l h
+      simp only [declares, Option.some.injEq] at hd
+      subst hd
+      simp only [exec] at h ⊢
+      cases hb : eval c l e <;> rw [hb] at h <;> first | (simp [passing] at h; done) | exact ⟨rfl, [(y, _), (x, _)], rfl, rfl⟩
+  | sub x params args body _ =>
+      intro names hd c l h
+      simp only [declares, Option.some.injEq] at hd
+      subst hd
+      simp only [exec] at h ⊢
+      split at h
+      · simp [passing] at h
+      · rename_i hb
+        rw [if_neg hb]
+        obtain ⟨v, hv⟩ := subResult_passing _ _ _ h
+        rw [hv]
+        exact ⟨rfl, [(x, v)], rfl, rfl⟩
+  | subOn x recv params args body _ =>
+      intro names hd c l h
+      simp only [declares, Option.some.injEq] at hd
+      subst hd
+      simp only [exec] at h ⊢
+      cases hr : eval c l recv <;> rw [hr] at h <;> try (simp [passing] at h; done)
+      simp only at h ⊢
+      split at h
+      · simp [passing] at h
+      · rename_i hb
+        rw [if_neg hb]
+        obtain ⟨v, hv⟩ := subResult_passing _ _ _ h
+        rw [hv]
+        exact ⟨rfl, [(x, v)], rfl, rfl⟩
+  | seq a b iha ihb =>
+      intro names hd c l h
+      simp only [declares] at hd
+      cases hda : declares a with
+      | none => rw [hda] at hd; simp at hd
+      | some da =>
+        cases hdb : declares b with
+        | none => rw [hda, hdb] at hd; simp at hd
+        | some db =>
+          rw [hda, hdb] at hd
+          simp only [Option.some.injEq] at hd
+          subst hd
+          simp only [exec] at h ⊢
+          have hpa := iha da hda c l
+          cases hx : exec a c l with
+          | mk l2 s2 =>
+            rw [hx] at h hpa
+            cases s2 with
+            | next =>
+                simp only at h ⊢
+                obtain ⟨_, p1, hp1, hn1⟩ := hpa (Or.inl rfl)
+                simp only at hp1
+                obtain ⟨h2, p2, hp2, hn2⟩ := ihb db hdb c l2 h
+                refine ⟨h2, p2 ++ p1, ?_, ?_⟩
+                · rw [hp2, hp1, List.append_assoc]
+                · rw [List.map_append, hn2, hn1]
+            | brk => have := (hpa (Or.inr (Or.inl rfl))).1; simp at this
+            | cont => have := (hpa (Or.inr (Or.inr rfl))).1; simp at this
+            | ret v => simp [passing] at h
+            | stuck w => simp [passing] at h
+  | _ =>
+      intro names hd c l h
+      simp only [declares] at hd
+      split at hd
+      · rename_i hk
+        simp only [Option.some.injEq] at hd
+        subst hd
+        obtain ⟨h1, h2⟩ := keeps_exact _ hk c l h
+        exact ⟨h1, [], by simpa using h2, rfl⟩
+      · simp at hd
+
+theorem lookup_append_of_not_mem (pre l : Locals) (k : String) (h : k ∉ pre.map Prod.fst) :
+    lookup (pre ++ l) k = lookup l k := by
+  induction pre with
+  | nil => rfl
+  | cons x xs ih =>
+      obtain ⟨n, v⟩ := x
+      simp only [List.map_cons, List.mem_cons, not_or] at h
+      have hne : (n == k) = false := by
+        rw [beq_eq_false_iff_ne]
+        exact fun e => h.1 e.symm
+      simp only [List.cons_append, lookup, hne]
+      exact ih h.2
+
+/-- falling through a sequence of statements that declare at most names other than `entry` keeps `entry` visible -/
+theorem declares_drop (c : Ctx) :
+    ∀ (ps : List Prog) (rest : Prog) (l : Locals),
+      (∀ p ∈ ps, ∃ names, declares p = some names ∧ "entry" ∉ names) →
+      (exec (seqs (ps ++ [rest])) c l).2 = .next →
+      ∃ pre, "entry" ∉ pre.map Prod.fst ∧ (exec rest c (pre ++ l)).2 = .next := by
+  intro ps
+  induction ps with
+  | nil => intro rest l _ h; exact ⟨[], by simp, by simpa [seqs] using h⟩
+  | cons a ps ih =>
+      intro rest l hall h
+      rw [List.cons_append, seqs_cons_ne _ _ (by simp)] at h
+      simp only [exec] at h
+      obtain ⟨names, hd, hne⟩ := hall a (List.mem_cons_self ..)
+      cases hx : exec a c l with
+      | mk l1 s1 =>
+        rw [hx] at h
+        cases s1 with
+        | next =>
+            obtain ⟨_, p1, hp1, hn1⟩ := declares_exact a names hd c l (by rw [hx]; exact Or.inl rfl)
+            rw [hx] at hp1
+            simp only at hp1 h
+            rw [hp1] at h
+            obtain ⟨p2, hn2, h2⟩ := ih rest (p1 ++ l) (fun p hp => hall p (List.mem_cons_of_mem _ hp)) h
+            refine ⟨p2 ++ p1, ?_, by rw [List.append_assoc]; exact h2⟩
+            rw [List.map_append, List.mem_append, not_or]
+            exact ⟨hn2, by rw [hn1]; exact hne⟩
+        | _ => simp at h
+
 /-- where the entry loop stands in a validator and where the call stands in the loop body -/
 def loopOf (P : Prog) : Option (Nat × Prog) :=
   let S := stmts P
@@ -108,14 +245,15 @@ def shapeOK (P : Prog) : Bool :=
       (S.take k).all (fun q => rejectOnly q && quiet q) && rejectOnly (.forEach "entry" (.fld "Entries") b) &&
       decide (k + 1 < S.length) && noAssign b &&
       (match callAt b with
-       | some j => ((stmts b)[j]? == some svcCall) && ((stmts b).take j).all keeps
+       | some j => ((stmts b)[j]? == some svcCall) &&
+           ((stmts b).take j).all (fun q => match declares q with | some names => !names.contains "entry" | none => false)
        | none => false)
   | none => false
 
 /-- the classes whose validator has that shape today -/
 def shapedClasses : List String :=
-  ["BatchACK", "BatchARC", "BatchBOC", "BatchCCD", "BatchCIE", "BatchCOR", "BatchDNE", "BatchENR", "BatchMTE", "BatchPOP",
-   "BatchPOS", "BatchPPD", "BatchRCK", "BatchTEL", "BatchTRC", "BatchWEB", "BatchXCK"]
+  ["BatchACK", "BatchARC", "BatchATX", "BatchBOC", "BatchCCD", "BatchCIE", "BatchCOR", "BatchDNE", "BatchENR", "BatchMTE",
+   "BatchPOP", "BatchPOS", "BatchPPD", "BatchRCK", "BatchSHR", "BatchTEL", "BatchTRC", "BatchTRX", "BatchWEB", "BatchXCK"]
 
 theorem validators_walk_entries :
     dispatchTable.all (fun tp => !shapedClasses.contains tp.1 || shapeOK tp.2) = true ∧
@@ -142,12 +280,14 @@ theorem seq_next_left {a b : Prog} {c : Ctx} {l : Locals} (h : (exec (.seq a b) 
     | next => rfl
     | _ => simp at h
 
-theorem svcCall_passes (c : Ctx) (ep : String) (pre : Locals)
-    (h : (exec svcCall c (("entry", .ref ep) :: pre)).2 = .next) :
+theorem svcCall_passes (c : Ctx) (ep : String) (pre2 pre : Locals) (hne : "entry" ∉ pre2.map Prod.fst)
+    (h : (exec svcCall c (pre2 ++ ("entry", .ref ep) :: pre)).2 = .next) :
     (exec v_Batch_ValidTranCodeForServiceClassCode c [("entry", .ref ep)]).2 = .ret (.err none) := by
   simp only [svcCall, exec, eval, List.map_cons, List.map_nil] at h
   have hc : ({ c with recv := c.recv } : Ctx) = c := rfl
-  simp [hc, lookup] at h
+  have hl : lookup (pre2 ++ ("entry", Val.ref ep) :: pre) "entry" = .ref ep := by
+    rw [lookup_append_of_not_mem _ _ _ hne]; simp [lookup]
+  simp [hc, hl] at h
   generalize (exec v_Batch_ValidTranCodeForServiceClassCode c [("entry", Val.ref ep)]).2 = s at h ⊢
   cases s with
   | ret v =>
@@ -196,20 +336,26 @@ theorem svc_checked (P : Prog) (hsh : shapeOK P = true) (c : Ctx) (p : String) (
       -- reach the call inside the body
       have hB := split_at (stmts b) j _ h6
       rw [← seqs_stmts b, hB] at hbody
-      have hk : ∀ q ∈ (stmts b).take j, keeps q = true := fun q hq => List.all_eq_true.mp h7 q hq
+      have hk : ∀ q ∈ (stmts b).take j, ∃ names, declares q = some names ∧ "entry" ∉ names := by
+        intro q hq
+        have := List.all_eq_true.mp h7 q hq
+        cases hdq : declares q with
+        | none => rw [hdq] at this; simp at this
+        | some names =>
+            rw [hdq] at this
+            refine ⟨names, rfl, ?_⟩
+            simpa using this
       cases hr : (stmts b).drop (j + 1) with
       | nil =>
           rw [hr] at hbody
-          have := keeps_drop c _ svcCall _ hk hbody
-          exact svcCall_passes c _ pre this
+          obtain ⟨pre2, hn2, h2⟩ := declares_drop c _ svcCall _ hk hbody
+          exact svcCall_passes c _ pre2 pre hn2 h2
       | cons r rs =>
           rw [hr] at hbody
-          have hcons : (stmts b).take j ++ svcCall :: r :: rs = (stmts b).take j ++ [seqs (svcCall :: r :: rs)] → True := fun _ => trivial
           rw [seqs_append_tail _ (svcCall :: r :: rs) (by simp)] at hbody
-          have := keeps_drop c _ (seqs (svcCall :: r :: rs)) _ hk hbody
-          rw [seqs_cons_ne _ _ (by simp)] at this
-          exact svcCall_passes c _ pre (seq_next_left this)
-
+          obtain ⟨pre2, hn2, h2⟩ := declares_drop c _ (seqs (svcCall :: r :: rs)) _ hk hbody
+          rw [seqs_cons_ne _ _ (by simp)] at h2
+          exact svcCall_passes c _ pre2 pre hn2 (seq_next_left h2)
 
 /-! ## what the call checks -/
 
@@ -315,7 +461,7 @@ theorem creditOrDebit_exec (c : Ctx) (t : Int) (h10 : 10 ≤ t) (h99 : t ≤ 99)
     simp [v_EntryDetail_CreditOrDebit, seqs, exec, eval, lookup, ht, hitoa, hb3, hsl, cmpVals, scopeExit, h1, h2, hk, digitChar]
 
 
-/-- C03, service class — for the 17 classes above and every batch value of any size: if `BatchXXX.Validate()` (translated
+/-- C03, service class — for the 20 classes above and every batch value of any size: if `BatchXXX.Validate()` (translated
 from the source on this run) returns nil, no `CheckTransactionCode` callback is set and the transaction codes have two
 digits, then for **every** entry: in a credits-only (220) batch the second digit of its code is 1–4 (a credit), in a
 debits-only (225) batch it is 5–9 (a debit), and the header's class is not 280 -/
